@@ -18,7 +18,16 @@ GRIDS = {
     "G_flip": lambda: fm.UniformGrid((3, 4), axes_increase=[True, False]),
     "H": lambda: fm.UniformGrid((3, 4), spacing=(2.0, 1.0)),  # other geometry, same shape
     "nogrid": lambda: fm.NoGrid(2),
+    # the same unstructured mesh (5 points, 5 triangles: equal counts) with data on points / on cells
+    "U_points": lambda: _mesh("POINTS"),
+    "U_cells": lambda: _mesh("CELLS"),
 }
+
+
+def _mesh(loc):
+    pts = [[0.0, 0.0], [4.0, 0.0], [2.0, 4.0], [1.5, 1.0], [2.5, 1.0]]
+    cells = [[0, 1, 3], [1, 4, 3], [1, 2, 4], [2, 3, 4], [0, 3, 2]]
+    return fm.UnstructuredGrid(pts, cells, [fm.CellType.TRI] * 5, data_location=loc)
 UNITS = ["unset", "m", "km", "s"]
 MASKS = ["FLEX", "NONE", "A", "B", "nomask", "all-false"]
 ARRAY_MASKS = ("A", "B", "nomask", "all-false")
@@ -58,6 +67,8 @@ def _build(spec, side):
 def _same_locations(a, b):
     if isinstance(a, fm.NoGrid) or isinstance(b, fm.NoGrid):
         return isinstance(a, fm.NoGrid) and isinstance(b, fm.NoGrid) and a.dim == b.dim
+    if isinstance(a, fm.UnstructuredGrid) != isinstance(b, fm.UnstructuredGrid):
+        return False
     pa = {tuple(np.round(p, 9)) for p in a.data_points}
     pb = {tuple(np.round(p, 9)) for p in b.data_points}
     return pa == pb
@@ -113,7 +124,7 @@ def h_link(ctx):
             for k in range(ncons)]
     # array masks without any grid on that side cannot be expressed: skip those combinations
     for s in [prod] + cons:
-        if s["mask"] in ("A", "B", "all-false") and s["grid"] in ("unset", "nogrid"):
+        if s["mask"] in ("A", "B", "all-false") and s["grid"] in ("unset", "nogrid", "U_points", "U_cells"):
             ctx.cut("mask-without-grid")
     out = fm.Output(name="out", info=_build(prod, "producer"))
     ins = []
@@ -152,7 +163,7 @@ def h_link(ctx):
         ctx.check(_same_locations(inf.grid, oinf.grid), "input-grid-not-the-delivered-locations", {"sig": sig})
         ctx.check(dtools.compatible_units(inf.units, oinf.units), "input-units-not-convertible", {"sig": sig})
         if c["grid"] != "unset":
-            ctx.check(inf.grid == GRIDS[c["grid"]](), "consumer-grid-not-kept", {"sig": sig})
+            ctx.check(bool(inf.grid == GRIDS[c["grid"]]()), "consumer-grid-not-kept", {"sig": sig})
         if c["units"] != "unset":
             ctx.check(inf.units == fm.UNITS.Unit(c["units"]), "consumer-units-not-kept", {"sig": sig})
         else:
@@ -258,6 +269,11 @@ def families(tier):
         dict(name="link:grid_x_mask", ref="vf.props.c07:h_link",
              params={"grids": allg, "units": ["m"], "masks": MASKS, "vary_time": False, "vary_foo": False},
              bounds="producer x consumer: 6 grid options x 6 mask options, units/time fixed", must_cover=["ok", "meta-error"]),
+        dict(name="link:unstructured_location", ref="vf.props.c07:h_link",
+             params={"grids": ["unset", "U_points", "U_cells", "G"], "units": ["m"], "masks": ["FLEX"],
+                     "vary_time": False, "vary_foo": False},
+             bounds="producer x consumer over an unstructured mesh with equal numbers of points and cells (data on points / "
+                    "cells), a structured grid, unset", must_cover=["ok", "meta-error"]),
         dict(name="link:units_x_time_x_meta", ref="vf.props.c07:h_link",
              params={"grids": ["G", "unset"], "units": UNITS, "masks": ["FLEX"], "vary_time": True, "vary_foo": True},
              bounds="producer x consumer: 2 grid x 4 units x time set/unset x extra meta absent/set/None",
